@@ -198,6 +198,16 @@ func goExec(line string) (out string) {
 		}
 	}()
 	t := strings.Fields(line)
+	// optional trailing "w=<n.n.n>": the sealing/signing ops use the streaming
+	// entry point and deliver the plaintext in Write calls of those lengths
+	// (the rest in a last one).  The model ignores the token: by C13's theorems
+	// the packets do not depend on the split.
+	currentWrites = nil
+	if len(t) > 1 && strings.HasPrefix(t[len(t)-1], "w=") {
+		currentWrites = parseCapsGo(t[len(t)-1][2:])
+		t = t[:len(t)-1]
+		defer func() { currentWrites = nil }()
+	}
 	switch t[0] {
 	case "bx.enc":
 		return "ok " + keys.Hex([]byte(encByName(t[1]).EncodeToString(unhex(t[2]))))
@@ -344,6 +354,8 @@ func execEncSeal(t []string) string {
 	script.With(src, func() {
 		if len(rs) == 0 {
 			out, err = saltpack.Seal(v, pt, sender, rs)
+		} else if currentWrites != nil {
+			out, err = viaStream(pt, func(w io.Writer) (io.WriteCloser, error) { return saltpack.NewEncryptStream(v, w, sender, rs) })
 		} else {
 			out, err = saltpack.Seal(v, pt, sender, rs)
 		}
@@ -400,7 +412,13 @@ func execScSeal(t []string) string {
 	var out []byte
 	var err error
 	script.With(src, func() {
-		out, err = saltpack.SigncryptSeal(unhex(t[7]), c, sender, boxes, syms)
+		if currentWrites != nil {
+			out, err = viaStream(unhex(t[7]), func(w io.Writer) (io.WriteCloser, error) {
+				return saltpack.NewSigncryptSealStream(w, c, sender, boxes, syms)
+			})
+		} else {
+			out, err = saltpack.SigncryptSeal(unhex(t[7]), c, sender, boxes, syms)
+		}
 	})
 	return sealResult(out, err, src)
 }
@@ -439,9 +457,21 @@ func execSign(t []string) string {
 		if atoi(t[5]) != 1048576 {
 			return "bad-op"
 		}
-		script.With(src, func() { out, err = saltpack.Sign(v, unhex(t[6]), signer) })
+		script.With(src, func() {
+			if currentWrites != nil {
+				out, err = viaStream(unhex(t[6]), func(w io.Writer) (io.WriteCloser, error) { return saltpack.NewSignStream(v, w, signer) })
+			} else {
+				out, err = saltpack.Sign(v, unhex(t[6]), signer)
+			}
+		})
 	} else {
-		script.With(src, func() { out, err = saltpack.SignDetached(v, unhex(t[5]), signer) })
+		script.With(src, func() {
+			if currentWrites != nil {
+				out, err = viaStream(unhex(t[5]), func(w io.Writer) (io.WriteCloser, error) { return saltpack.NewSignDetachedStream(v, w, signer) })
+			} else {
+				out, err = saltpack.SignDetached(v, unhex(t[5]), signer)
+			}
+		})
 	}
 	return sealResult(out, err, src)
 }
@@ -477,4 +507,39 @@ func msgReader(msg []byte) io.Reader {
 		return &faultingReader{b: msg, spec: *currentFault}
 	}
 	return readerFor(msg)
+}
+
+var currentWrites []int
+
+// viaStream: the streaming form of a sealing/signing entry point, the plaintext
+// delivered in Write calls of currentWrites' lengths (clipped), the rest last.
+// A stream that is never written to is closed without any Write call.
+func viaStream(pt []byte, mk func(w io.Writer) (io.WriteCloser, error)) ([]byte, error) {
+	var buf bytes.Buffer
+	w, err := mk(&buf)
+	if err != nil {
+		return nil, err
+	}
+	rest := pt
+	for _, n := range currentWrites {
+		if n < 0 { // "no Write at all" marker
+			continue
+		}
+		if n > len(rest) {
+			n = len(rest)
+		}
+		if _, err := w.Write(rest[:n]); err != nil {
+			return nil, err
+		}
+		rest = rest[n:]
+	}
+	if len(rest) > 0 {
+		if _, err := w.Write(rest); err != nil {
+			return nil, err
+		}
+	}
+	if err := w.Close(); err != nil {
+		return nil, err
+	}
+	return buf.Bytes(), nil
 }
